@@ -144,6 +144,11 @@ func c10One(c *fw.Ctx, id string, i int) {
 	if r.Intn(3) == 0 {
 		otherSpec.Naming["D"] = "."
 	}
+	for _, k := range []string{"A", "B", "C", "E", "F"} {
+		if r.Intn(4) == 0 {
+			otherSpec.Blank = append(otherSpec.Blank, k)
+		}
+	}
 	otherSrc := gen.RenderFile(otherSpec, "other", 99)
 	ofiles, oinfo, _, oerr := p.Check(map[string]string{"o0.go": otherSrc}, "ex.com/other")
 	if oerr != nil {
@@ -253,10 +258,24 @@ func c10One(c *fw.Ctx, id string, i int) {
 		}
 		return buf.String(), ""
 	}
+	// FileRestorer.Alias overrides: a name, "." or "_" (the last is how a tool pins a side-effect
+	// import; it must not stop the restorer from naming the package once moved code uses it)
 	var alias map[string]string
-	if r.Intn(3) == 0 {
-		alias = map[string]string{"ex.com/a/util": "forced"}
-		c.Count("alias_overrides", 1)
+	if r.Intn(2) == 0 {
+		alias = map[string]string{}
+		for _, l := range gen.Libs {
+			switch r.Intn(8) {
+			case 0:
+				alias[l.ImportPath] = "forced" + strings.ToLower(l.Key)
+			case 1:
+				alias[l.ImportPath] = "_"
+			case 2:
+				if l.Key == "B" || l.Key == "F" { // one more dot-import whose members clash with nothing
+					alias[l.ImportPath] = "."
+				}
+			}
+		}
+		c.Count("alias_overrides", int64(len(alias)))
 	}
 	detail := func() string { return fmt.Sprintf("%s moves=%v alias=%v", id, log, alias) }
 	newSelf := map[string]string{}
